@@ -20,12 +20,24 @@ from harness.codec import (
     enc_state,
     state_from_str,
 )
+from gym_gridverse.action import Action
 from gym_gridverse.envs.utils import get_next_position
 from gym_gridverse.geometry import Area, Orientation, Position, Transform
 from gym_gridverse.utils.fast_copy import fast_copy
 
 O = Orientation
 ORIENTS = [O.F, O.B, O.L, O.R]
+
+
+# what a move action means (the property's own words: forward/left/right/backward relative to the
+# heading) - a literal, not the library's private table, so the oracles keep working when that table
+# is rewritten
+mv = {
+    Action.MOVE_FORWARD: O.F,
+    Action.MOVE_LEFT: O.L,
+    Action.MOVE_RIGHT: O.R,
+    Action.MOVE_BACKWARD: O.B,
+}
 
 
 class Oracle:
@@ -102,6 +114,20 @@ class C18(Oracle):
             out.append(V('transform/inverse', f'{t}'))
         if (t * u) * r != t * (u * r):
             out.append(V('transform/action', f'{t},{u},{r}'))
+        # a pose is a mutable object (Agent moves and turns by assigning to it): the laws must hold for
+        # its current value at every point of its life, whatever was computed from it before
+        tm = Transform(p, a)
+        before = (-tm, tm * u, tm * r, tm * ar, hash(tm))
+        tm.position = q
+        tm.orientation = b
+        if tm != u or hash(tm) != hash(u):
+            out.append(V('transform/value-after-mutation', f'{t}->{u}'))
+        if tm * -tm != ident or -tm * tm != ident or -tm != -u:
+            out.append(V('transform/inverse-after-mutation', f'{t}->{u}'))
+        if tm * v != u * v or tm * r != u * r or tm * ar != u * ar:
+            out.append(V('transform/action-after-mutation', f'{t}->{u}'))
+        if before != (-t, t * u, t * r, t * ar, hash(t)):
+            out.append(V('transform/result-aliases-mutable-pose', f'{t}->{u}'))
         if (t * ar).contains(t * q) != ar.contains(q):
             out.append(V('area/contains', f'{t},{ar},{q}'))
         if ar.height * ar.width <= 64:
@@ -110,7 +136,6 @@ class C18(Oracle):
                 out.append(V('area/image', f'{t},{ar}'))
         act = ACTIONS[c['action']]
         np_ = get_next_position(p, a, act)
-        from gym_gridverse.envs.utils import _move_action_to_orientation as mv
 
         exp = t * Position.from_orientation(mv[act]) if act in mv else p
         if np_ != exp:
@@ -275,7 +300,6 @@ class C08(Oracle):
                 if o1 != o0:
                     out.append(V('move_agent/changes-heading', c['state']))
                 if a.is_move():
-                    from gym_gridverse.envs.utils import _move_action_to_orientation as mv
 
                     tgt = p0 + (o0 * mv[a]) * Position(-1, 0)
                     free = in_grid(s0.grid, tgt) and not blocks(s0.grid[tgt])
@@ -323,7 +347,6 @@ class C08(Oracle):
 
             s = fast_copy(s0)
             rng = ScriptRng(c['answers'] * 20)
-            from gym_gridverse.envs.utils import _move_action_to_orientation as mv
 
             for k, ai in enumerate(c['history']):
                 act = ACTIONS[ai]
@@ -708,7 +731,6 @@ class C12(Oracle):
         from gym_gridverse.envs import reward_functions as rf
         from gym_gridverse.envs import terminating_functions as tf
         from gym_gridverse.grid_object import Beacon, Door, Exit, Key, MovingObstacle, Wall
-        from gym_gridverse.envs.utils import _move_action_to_orientation as mv
 
         out = []
         s, s2 = state_from_str(c['s']), state_from_str(c['s2'])
@@ -1289,6 +1311,14 @@ class C20(Oracle):
             c['mode'] = rng.choice(['make', 'direct', 'state'])
             # keep stepping after a terminal step (the adapter forwards every step) in half of the cases
             c['noreset'] = rng.random() < 0.5
+            if rng.random() < 0.4:
+                # the same description with another action list: index i must mean the i-th listed action
+                names = [a.name for a in ACTIONS]
+                rng.shuffle(names)
+                c['action_list'] = names[: rng.randint(2, len(names))]
+                c['actions'] = [ai % len(c['action_list']) for ai in c['actions']]
+                if c['mode'] == 'make':
+                    c['mode'] = 'direct'
             yield c
 
     def check(self, c):
@@ -1296,6 +1326,7 @@ class C20(Oracle):
         import gym
         import numpy as np
         from gym_gridverse.gym import STRING_TO_YAML_FILE, GymEnvironment, GymStateWrapper, outer_env_factory
+        from gym_gridverse.outer_env import OuterEnv
         from gym_gridverse.representations.observation_representations import make_observation_representation
         from gym_gridverse.representations.state_representations import make_state_representation
 
@@ -1306,11 +1337,18 @@ class C20(Oracle):
         if c['mode'] == 'make' and gid:
             w = gym.make(gid[0], disable_env_checker=True)
             genv = w.unwrapped
+        elif 'action_list' in c:
+            data = load_cfg(c['file'])
+            data['action_space'] = list(c['action_list'])
+            inner0 = build_env(None, data)
+            genv = GymEnvironment(OuterEnv(inner0, observation_representation=make_observation_representation('default', inner0.observation_space)))
+            w = genv
         else:
             genv = GymEnvironment(outer_env_factory(path))
             w = genv
         genv.set_observation_representation(c['enc'])
-        shadow = build_env(c['file'])
+        shadow = build_env(None, data) if 'action_list' in c else build_env(c['file'])
+        listed = [Action[n] for n in c['action_list']] if 'action_list' in c else list(shadow.action_space.actions)
         inner = genv.outer_env.inner_env
         orep = make_observation_representation(c['enc'], shadow.observation_space)
         state_mode = c['mode'] == 'state' and inner.state_space.can_be_represented
@@ -1337,12 +1375,16 @@ class C20(Oracle):
         elif not same(o, exp_o) or not genv.observation_space.contains(o):
             out.append(V('gym/reset-observation', f'{fname} enc={c["enc"]}'))
         nact = genv.action_space.n
-        if nact != len(shadow.action_space.actions):
+        if nact != len(listed):
             out.append(V('gym/action-space-size', fname))
         for k, ai in enumerate(c['actions']):
-            res = w.step(ai)
+            try:
+                res = w.step(ai)
+            except Exception as e:
+                out.append(V('gym/valid-index-rejected', f'{fname} index {ai} of {[a.name for a in listed]}: {type(e).__name__}'))
+                break
             o, r, d, info = res[0], res[1], res[2], res[-1]
-            r2, d2 = shadow.step(shadow.action_space.actions[ai])
+            r2, d2 = shadow.step(listed[ai])
             exp_o = orep.convert(shadow.observation)
             if r != r2 or d != d2:
                 out.append(V('gym/reward-or-flag', f'{fname} step {k} index {ai}'))
@@ -1581,6 +1623,49 @@ class C16(Oracle):
                     out.append(V('representation/not-positional', f'cell {(y, x)}'))
                 if int(d1['agent_id_grid'][y, x]) != int((y, x) == x1.agent.position.yx):
                     out.append(V('representation/agent-marker', f'cell {(y, x)}'))
+        if not c['obs']:
+            out.extend(self._state_with_a_past(rng, mk, sp, rep, enc))
+        return out
+
+    @staticmethod
+    def _state_with_a_past(rng, mk, sp, rep, enc):
+        """equality, hashing and conversion of a state that has been hashed / converted earlier and then
+        changed in place by the library's own dynamics (doors open in place, the agent moves by
+        assignment), and of a pickle copy of it: they must be those of a freshly built equal state"""
+        import numpy as np
+        from gym_gridverse.envs import transition_functions as trf
+        from gym_gridverse.grid_object import Door, Key
+
+        out = []
+        sm = mk()
+        warm = lambda x: (hash(x.grid), hash(x.agent), [hash(o) for row in x.grid.objects for o in row], rep.convert(x) if sp.contains(x) else None)  # noqa: E731
+        warm(sm)
+        for p in [p for p in sm.grid.area.positions() if isinstance(sm.grid[p], Door) and not sm.grid[p].is_open][:3]:
+            for o in ORIENTS:
+                q = p - Position.from_orientation(o)
+                if sm.grid.area.contains(q):
+                    sm.agent.position, sm.agent.orientation = q, o
+                    if sm.grid[p].is_locked and rng.random() < 0.7:
+                        sm.agent.grid_object = Key(sm.grid[p].color)
+                    trf.actuate_door(sm, Action.ACTUATE)
+                    warm(sm)
+                    break
+        for _ in range(rng.randrange(4)):
+            a = rng.choice(ACTIONS)
+            for f in (trf.move_agent, trf.turn_agent, trf.pickndrop, trf.actuate_door, trf.actuate_box):
+                f(sm, a)
+        sc = fast_copy(sm)
+        fresh = state_from_str(enc_state(sm))
+        for tag, x in (('changed in place', sm), ('pickle copy', sc)):
+            if not (x.grid == fresh.grid and x.agent == fresh.agent):
+                out.append(V('state/rebuilt-state-not-equal', f'{tag}: {enc_state(sm)}'))
+                continue
+            if hash(x.grid) != hash(fresh.grid) or hash(x.agent) != hash(fresh.agent) or hash(x) != hash(fresh):
+                out.append(V('state/equal-but-different-hash-after-change', f'{tag}: {enc_state(sm)}'))
+            if sp.contains(x) and sp.contains(fresh):
+                d1, d2 = rep.convert(x), rep.convert(fresh)
+                if not all(np.array_equal(d1[k], d2[k]) for k in d1):
+                    out.append(V(f'representation/{enc}-stale-after-change', f'{tag}: {enc_state(sm)}'))
         return out
 
 
@@ -1979,6 +2064,34 @@ class C19(Oracle):
 class C17(Oracle):
     prop = 'C17'
 
+    @staticmethod
+    def _gym_make_twice(base, seed):
+        """every registered id pointing at this file: two `gym.make` calls give two independent environments"""
+        import gym
+        from gym_gridverse.gym import STRING_TO_YAML_FILE
+
+        out = []
+        for gid in sorted(g for g, f in STRING_TO_YAML_FILE.items() if f == base)[:2]:
+            try:
+                g1 = gym.make(gid, disable_env_checker=True).unwrapped
+                g2 = gym.make(gid, disable_env_checker=True).unwrapped
+                i1, i2 = g1.outer_env.inner_env, g2.outer_env.inner_env
+                if g1 is g2 or g1.outer_env is g2.outer_env or i1 is i2:
+                    out.append(V('gym/second-make-shares-the-environment', f'{gid}: two gym.make calls must build two environments'))
+                    continue
+                i1.set_seed(seed)
+                i1.reset()
+                snap = (enc_state(i1.state), enc_state(i1.observation))
+                i2.set_seed(seed + 1)
+                i2.reset()
+                for a in list(i2.action_space.actions)[:4]:
+                    i2.step(a)
+                if (enc_state(i1.state), enc_state(i1.observation)) != snap:
+                    out.append(V('gym/second-make-shares-the-environment', f'{gid}: stepping one instance changed the other'))
+            except Exception as e:
+                out.append(V('gym/make-fails', f'{gid}: {type(e).__name__}: {e}'))
+        return out
+
     def gen(self, rng):
         import glob
         import os
@@ -1988,7 +2101,10 @@ class C17(Oracle):
         while True:
             f = files[k % len(files)]
             k += 1
-            yield {'kind': 'build', 'file': f, 'seed': rng.randrange(2**31), 'actions': [rng.randrange(8) for _ in range(rng.randint(5, 60))]}
+            case = {'kind': 'build', 'file': f, 'seed': rng.randrange(2**31), 'actions': [rng.randrange(8) for _ in range(rng.randint(5, 60))]}
+            if rng.random() < 0.4 and not f.endswith('coin_env.yaml'):
+                case['perm'] = rng.randrange(2**31)  # the same description with another action list / order
+            yield case
             yield {'kind': 'corrupt', 'file': rng.choice(files[:21]), 'which': rng.choice(['unknown-name', 'missing-required', 'bad-shape', 'bad-color', 'bad-action', 'bad-layout']), 'pick': rng.randrange(10**6)}
             yield {'kind': 'byname', 'seed': rng.randrange(2**31)}
 
@@ -2013,13 +2129,26 @@ class C17(Oracle):
                     out.append(V('config/packaged-copy-differs', base))
                 if base not in STRING_TO_YAML_FILE.values():
                     out.append(V('config/no-registered-id', base))
+                out.extend(self._gym_make_twice(base, c['seed']))
+            if 'perm' in c:
+                rr = random.Random(c['perm'])
+                names = [a.name for a in ACTIONS]
+                rr.shuffle(names)
+                data['action_space'] = names[: rr.randint(2, len(names))]
+                before = copy.deepcopy(data)
             try:
                 e1 = factory_env_from_data(data)
                 if data != before:
                     out.append(V('factory/mutates-input-data', os.path.basename(c['file'])))
                 e2 = factory_env_from_data(data)
-                e3 = factory_env_from_yaml(c['file'])
-                e4 = factory_env_from_yaml(c['file'])
+                if 'perm' in c:
+                    e3 = factory_env_from_data(copy.deepcopy(before))
+                    e4 = factory_env_from_data(copy.deepcopy(before))
+                    if [a.name for a in e1.action_space.actions] != before['action_space']:
+                        out.append(V('factory/action-order-differs-from-description', f'{base}: described {before["action_space"]}, built {[a.name for a in e1.action_space.actions]}'))
+                else:
+                    e3 = factory_env_from_yaml(c['file'])
+                    e4 = factory_env_from_yaml(c['file'])
                 eh = envspec.hand_assemble(before)
             except Exception as e:
                 return [V('factory/shipped-config-rejected', f'{os.path.basename(c["file"])}: {type(e).__name__}: {e}')]
